@@ -23,11 +23,20 @@ def build(concepts, case):
     ``case['via']``: the context handed to the driver is not the one built from the table but one
     obtained from it by a persistence route (``via``) - its ``lattice`` is then the loaded lattice."""
     cls = user_subclass(concepts) if case.get('subclass') else concepts.Context
+    twin = None
+    if case.get('twin_rows') is not None:       # the twin exists before the context that is judged ...
+        try:
+            twin = concepts.Context(list(case['objects']), list(case['properties']),
+                                    gen.bools_of(dict(case, rows=case['twin_rows'])))
+        except core.CaseTimeout:
+            raise
+        except Exception:
+            COL.count('crc_twin_construction_raised')
     ctx = cls(list(case['objects']), list(case['properties']), gen.bools_of(case))
     if case.get('subclass'):
         COL.count('contexts_of_a_user_subclass')
-    if case.get('twin_rows') is not None:
-        twin_prelude(concepts, case, ctx)
+    if twin is not None:                        # ... and is asked everything before that one is asked anything
+        twin_prelude(concepts, case, ctx, twin)
     if case.get('via'):
         ctx = via(concepts, ctx, case)
     return ctx
@@ -50,26 +59,21 @@ def user_subclass(concepts):
 TWINS = collections.deque(maxlen=8)
 
 
-def twin_prelude(concepts, case, ctx):
+def twin_prelude(concepts, case, ctx, twin):
     """Build the CRC-32 twin of ``ctx`` (same labels and shape, other cells, equal checksum of the
     table text), ask it everything, keep it alive.  Whatever is remembered under a fingerprint of the
     first context must not leak into the answers of the second.  Never raises."""
     import random
     rng = random.Random(repr(gen.table_key(case)))
     try:
-        twin = concepts.Context(list(case['objects']), list(case['properties']),
-                                gen.bools_of(dict(case, rows=case['twin_rows'])))
-    except core.CaseTimeout:
-        raise
-    except Exception:
-        COL.count('crc_twin_construction_raised')
-        return
-    try:
         with core.monitor_code():
             same = twin.crc32() == ctx.crc32() and twin.bools != ctx.bools
     except Exception:
         same = False
-    COL.count('crc_twins_confirmed_equal_crc32' if same else 'crc_twins_unconfirmed')
+    if case.get('fam') == 'HASHTWIN':
+        COL.count('hash_twins')
+    else:
+        COL.count('crc_twins_confirmed_equal_crc32' if same else 'crc_twins_unconfirmed')
     TWINS.append(twin)
     exercise(concepts, twin, rng)
 
